@@ -96,6 +96,22 @@ def run(rep, pdb, tier):
             ok = e.kind == "set" and e.index == ("tup", rowv, j) and e.value == ("idx", VAL, k) and shape
             det = "dense[(%s)] = %s; dense is rows x cols zeros: %s" % (show(e.index, ctx), show(e.value, ctx), shape)
         rep.add("role/%s" % name, "the triplet / dense entry is (row_index[k], j, val[k]): row from row_index, column from the walk", ok, e.node, det)
+    rule_construction(rep, pdb)
+    rule_lookup(rep, pdb)
+    rule_scale_values_only(rep, pdb)
+    # ---- transpose shape / scatter
+    check_transpose(rep, pdb, walks, "transpose-shape")
+    rep.floor("csc-walk/", 7)
+    rep.floor("role/", 2)
+    rep.floor("lengths/", 3)
+    rep.floor("lookup/", 3)
+    rep.assumptions += ["raw arrays given to from_vecs are well-formed (the property quantifies over well-formed raw input; the function performs no validation)",
+                        "independence of the triplet order and equality with a reference model over all patterns and histories are not decided statically; monotonicity of col_start follows from the prefix-sum rule"]
+    return {}
+
+
+def rule_construction(rep, pdb):
+    """constructors establish the compressed-column invariants (also evaluated under C07: the products walk these arrays)"""
     # ---- lengths: constructors
     fn = pdb.fn("%s::new_nonzero" % S)
     rule = "new_nonzero(rows, cols, nnz) allocates len(val) = len(row_index) = nnz and len(col_start) = cols + 1"
@@ -241,6 +257,9 @@ def run(rep, pdb, tier):
             ok = ok and tail is not None and ctx.term(tail) == pu.target
             det = "range 0..len(col_start)-1=%s copies per column=%s" % (full, show(count, ctx))
         rep.add("col-index", rule, ok, fn["body"], det, where=loc(fn["body"]))
+
+
+def rule_lookup(rep, pdb):
     # ---- lookup: get / insert agree
     sig = {}
     for name in ("get", "insert"):
@@ -293,6 +312,9 @@ def run(rep, pdb, tier):
                 det = "overwrites val[k] of the matching k and returns=%s; else rebuilds from to_triplets()+new triplet with the same shape=%s; no other early return=%s" % (okw, okb, only)
         rep.add("lookup/%s" % name, rule, ok, fn["body"], det, where=loc(fn["body"]))
     rep.add("lookup/agree", "get and insert use the same membership test and range", len(sig) == 2 and sig["get"] == sig["insert"], None, "", where="src/sparse.rs")
+
+
+def rule_scale_values_only(rep, pdb):
     # ---- scale touches values only
     fn = pdb.fn("%s::scale" % S)
     rule = "scale multiplies every stored value val[k], k in 0..nonzero, and changes nothing else (row_index, col_start, nonzero and the shape stay as they are)"
@@ -309,15 +331,6 @@ def run(rep, pdb, tier):
             ok = r is not None and e.kind == "upd" and e.op == "*=" and e.target == VAL and e.index == r[0] and e.value == P(1) and r[1:5] == (num(0), NNZ, False, False) and \
                 all(path == ("val",) and mode == "elem" for (path, mode), _ in muts)
         rep.add("scale", rule, ok, fn["body"], "writes through self: %s" % [k for k, _ in muts], where=loc(fn["body"]))
-    # ---- transpose shape / scatter
-    check_transpose(rep, pdb, walks, "transpose-shape")
-    rep.floor("csc-walk/", 7)
-    rep.floor("role/", 2)
-    rep.floor("lengths/", 3)
-    rep.floor("lookup/", 3)
-    rep.assumptions += ["raw arrays given to from_vecs are well-formed (the property quantifies over well-formed raw input; the function performs no validation)",
-                        "independence of the triplet order and equality with a reference model over all patterns and histories are not decided statically; monotonicity of col_start follows from the prefix-sum rule"]
-    return {}
 
 
 def check_transpose(rep, pdb, walks, key):
